@@ -731,6 +731,42 @@ func checkLookupUndoOrder(c *core.Ctx, fn *core.FuncRef, key string, outer *ast.
 		})
 		return true
 	})
+	// the other way of walking a slice backwards: produce the last element, then cut it off
+	if !reverse {
+		ast.Inspect(outer.Body, func(n ast.Node) bool {
+			fs, ok := n.(*ast.ForStmt)
+			if !ok || fs.Pos() < innerCall.End() || fs.Cond == nil {
+				return true
+			}
+			txt := core.FullStr(fs.Body)
+			producesLast, cuts := false, false
+			ast.Inspect(fs.Body, func(m ast.Node) bool {
+				switch v := m.(type) {
+				case *ast.CallExpr:
+					if core.ExprStr(v.Fun) == "produce" && len(v.Args) == 2 {
+						if ix, ok := core.Unparen(v.Args[1]).(*ast.IndexExpr); ok {
+							idx := core.ExprStr(ix.Index)
+							sl := core.ExprStr(ix.X)
+							if idx == "len("+sl+") - 1" || idx == "len("+sl+")-1" || strings.Contains(txt, idx+" := len("+sl+") - 1") {
+								producesLast = true
+							}
+						}
+					}
+				case *ast.AssignStmt:
+					if len(v.Lhs) == 1 && len(v.Rhs) == 1 {
+						if se, ok := v.Rhs[0].(*ast.SliceExpr); ok && se.Low == nil && se.High != nil && core.ExprStr(se.X) == core.ExprStr(v.Lhs[0]) {
+							cuts = true
+						}
+					}
+				}
+				return true
+			})
+			if producesLast && cuts {
+				reverse = true
+			}
+			return true
+		})
+	}
 	c.Decide(reverse, "LOOKUP", key+"/undo order", outer.Pos(), 1, "kept rows are produced last to first after the joined stream has finished",
 		"the rows kept for a retracted source record are not produced in reverse order after the joined run: undoing +x −x +y front to back retracts x while it is absent")
 }
